@@ -460,12 +460,12 @@ Fixpoint dec_wops (fuel : nat) (l : list Z) : list wop :=
   | S k => match dec_wop l with Some (o, r) => o :: dec_wops k r | None => [] end
   end.
 
-Definition enc_dump (st : st_i) : list Z :=
-  let c := cc st in
+Definition enc_cache (c : cache) : list Z :=
   let ws := flat_map (fun e => map (fun s => (fst e, fst s)) (snd e)) (widgets c) in
   zlen ws :: flat_map (fun p => [fst p; snd p]) ws
     ++ zlen (deps c) :: flat_map (fun e => fst e :: enc_list (snd e)) (deps c)
     ++ [zlen (refs c)].
+Definition enc_dump (st : st_i) : list Z := enc_cache (cc st).
 
 Section RunCase.
   Variable tbl : list (Z * node).
@@ -498,8 +498,56 @@ Section RunCase.
     end.
 End RunCase.
 
+(* =====================================================================================
+   Second sub-model (first integer -2): the CanvasCache primitives replayed on a call trace recorded from the
+   implementation while REAL widgets render (harness/props/c06.py instruments store/fetch/invalidate/cleanup/clear).
+   Widgets, keys (wcls, size, focus) and canvases are interned integers; the canvas content plays no role.
+     op = 1 w k c cacheable deps(list) | 2 w k | 3 w | 4 c | 5 | 6 (the harness sets the cache dicts aside) | 7 (and
+          puts them back) | 8 (dump)
+     reply: per fetch the id of the canvas handed out or -1; per dump the cache as in [enc_cache]
+   ===================================================================================== *)
+Inductive top :=
+  | TStore (w k c : Z) (ca : bool) (ds : list Z) | TFetch (w k : Z) | TInval (w : Z) | TCleanup (c : Z)
+  | TClear | TSwapOut | TSwapIn | TDump.
+Definition dec_top (l : list Z) : option (top * list Z) :=
+  match l with
+  | 1 :: w :: k :: c :: ca :: r =>
+    match dec_list r with Some (ds, r') => Some (TStore w k c (negb (ca =? 0)) ds, r') | None => None end
+  | 2 :: w :: k :: r => Some (TFetch w k, r)
+  | 3 :: w :: r => Some (TInval w, r)
+  | 4 :: c :: r => Some (TCleanup c, r)
+  | 5 :: r => Some (TClear, r)
+  | 6 :: r => Some (TSwapOut, r)
+  | 7 :: r => Some (TSwapIn, r)
+  | 8 :: r => Some (TDump, r)
+  | _ => None
+  end.
+Fixpoint dec_tops (fuel : nat) (l : list Z) : list top :=
+  match fuel with
+  | O => []
+  | S k => match dec_top l with Some (o, r) => o :: dec_tops k r | None => [] end
+  end.
+Definition tstate := (cache * list (canvas unit) * list cache)%type.
+Definition tstep (acc : tstate * list Z) (o : top) : tstate * list Z :=
+  let '((c, h, saved), out) := acc in
+  match o with
+  | TStore w k i ca ds =>
+    let cv := Canvas i w k tt [] in
+    ((store unit (fun _ => ca) c cv ds, cv :: h, saved), out)
+  | TFetch w k =>
+    ((c, h, saved), out ++ [match fetch unit (State c h 0 []) w k with Some cv => c_id cv | None => -1 end])
+  | TInval w =>
+    ((match invalidate (S (length (deps c))) c w with Some c' => c' | None => c end, h, saved), out)
+  | TCleanup i => ((cleanup c i, remove_canvas unit h i, saved), out)
+  | TClear => ((empty_cache, h, saved), out)
+  | TSwapOut => ((empty_cache, h, c :: saved), out)
+  | TSwapIn => (match saved with c0 :: r => (c0, h, r) | [] => (c, h, saved) end, out)
+  | TDump => ((c, h, saved), out ++ enc_cache c)
+  end.
+
 Definition run_case (l : list Z) : list Z :=
   match l with
+  | (-2) :: r => snd (fold_left tstep (dec_tops (length r) r) ((empty_cache, [], []), []))
   | nn :: r =>
     match dec_nodes (Z.to_nat nn) r with
     | Some (tbl, _ :: r1) =>
